@@ -95,7 +95,7 @@ def pick2(Lm, a):
 def masked_volume(s):
     e = s.ems
     vol = (e.x2 - e.x1).astype(jnp.float32) * (e.y2 - e.y1).astype(jnp.float32) * (e.z2 - e.z1).astype(jnp.float32)
-    return jnp.where(s.ems_mask, vol, 0.0)
+    return vol * s.ems_mask  # an invalid EMS counts as volume 0
 
 
 def item_volumes(s):
@@ -182,9 +182,14 @@ def sorted_spec(env, s):
     return out
 
 
-def inv(env, s):
+def inv(env, s, order=True):
+    """`order=False` leaves out the (non-linear) volume-ordering conjunct of `sorted_ems_indexes`: used as the (weaker)
+    precondition of every clause that does not depend on it"""
+    so = sorted_spec(env, s)
+    if not order:
+        so.pop("sorted_by_non_increasing_volume_ties_by_index", None)
     return {**instance_wellformed(env, s), **feasible(env, s), "ems_buffer_in_bounds": ems_buffer_in_bounds(env, s),
-            **sorted_spec(env, s), "cached_mask_is_the_mask": s.action_mask == legal(env, s),
+            **so, "cached_mask_is_the_mask": s.action_mask == legal(env, s),
             "not_terminal": jnp.any(s.action_mask)}
 
 
@@ -225,7 +230,9 @@ def problems(env, cfg, tier):
     T = type(env)
 
     def req(s, a):
-        return {**inv(env, s), "in_spec": E.in_spec(env, a)}
+        return {**inv(env, s, order=False), "in_spec": E.in_spec(env, a)}
+
+    ORDER = ("sorted_ems_indexes", "action_mask")  # frame fields whose proof needs the volume order: problem `order` below
 
     def frame_fields(s, s2):
         out = {}
@@ -272,12 +279,11 @@ def problems(env, cfg, tier):
             out["C08.sparse_reward_is_final_utilisation"] = ts.reward == jnp.where(last, utilisation(s2), 0.0)
         out["C08.extras_report_the_utilisation"] = ts.extras["volume_utilization"] == utilisation(s2)
         for k, v in frame_fields(s, s2).items():
-            out["C05.illegal_state_untouched." + k] = ok | v
+            if k not in ORDER:
+                out["C05.illegal_state_untouched." + k] = ok | v
         for k, v in spec_obs(env, s2).items():
             out["C12.obs." + k] = obs_field(o, k) == v
-        for k, v in sorted_spec(env, s2).items():
-            out["C12.selection_" + k] = v
-        for k, v in inv(env, s2).items():
+        for k, v in inv(env, s2, order=False).items():
             if k not in feasible(env, s):  # the geometric part is the dedicated (expensive) problem below
                 out["C06.inv_" + k] = (last | v) if k == "not_terminal" else v
         out.update(K.spec_bounds(env.observation_spec, o, "C01.step_obs_bounds"))
@@ -291,6 +297,24 @@ def problems(env, cfg, tier):
                 props=("C01", "C04", "C05", "C06", "C08", "C11", "C12"),
                 targets=[T.step, T._make_observation_and_extras, T._get_set_of_largest_ems, T._get_action_mask, T._normalize_ems_and_items,
                          T._pack_item, T._update_ems, type(env.reward_fn).__call__])
+
+    # everything that depends on the ORDER of the EMS volumes (products of three symbolic lengths): products are kept as a
+    # commutative uninterpreted function (fmul_uf), so the queries are linear arithmetic + UF
+    def order_ens(s, a):
+        s2, ts = env.step(s, a)
+        ok = pick2(legal(env, s), a)
+        out = {"canary.no_item_is_ever_packed": (s2.items_placed == s.items_placed).all()}
+        fr = frame_fields(s, s2)
+        for k in ORDER:
+            out["C05.illegal_state_untouched." + k] = ok | fr[k]
+        for k, v in sorted_spec(env, s2).items():  # also on LAST steps
+            out["C12.selection_" + k] = v
+            out["C06.inv_" + k] = v
+        return out
+
+    order = dict(title=f"BinPack.step(volume order)@{cfg}", args=(state, a), requires=lambda s, a: {**inv(env, s), "in_spec": E.in_spec(env, a)},
+                 ensures=order_ens, workers=6, timeout=300, fmul_uf=True, props=("C05", "C06", "C12"),
+                 targets=[T.step, T._make_observation_and_extras, T._get_set_of_largest_ems, Space.volume])
 
     # C06 proper: the geometric invariant, one obligation per conjunct (the monolithic query is `unknown` after 600 s).
     # Weaker precondition than Inv (everything below is implied by it): geometry + the cached mask is SOUND + indexes in range.
@@ -401,14 +425,14 @@ def problems(env, cfg, tier):
                "canary.reset_every_item_valid": s.items_mask.all()}
         for k, v in spec_obs(env, s).items():
             out["C12.reset_obs." + k] = obs_field(o, k) == v
-        for k, v in sorted_spec(env, s).items():
-            out["C12.reset_selection_" + k] = v
         for k, v in inv(env, s).items():
             out["C06.reset_inv_" + k] = v
+            if k in sorted_spec(env, s):
+                out["C12.reset_selection_" + k] = v
         out.update(K.spec_bounds(env.observation_spec, o, "C01.reset_obs_bounds"))
         return out
 
-    reset = dict(title=f"BinPack.reset@{cfg}", args=(state, jax.random.PRNGKey(0)), requires=gen_post, ensures=reset_ens, workers=4,
+    reset = dict(title=f"BinPack.reset@{cfg}", args=(state, jax.random.PRNGKey(0)), requires=gen_post, ensures=reset_ens, workers=4, fmul_uf=True,
                  targets=[T.reset, T._make_observation_and_extras],
                  note="generator replaced by its post-condition (contract boundary; the generator's own contract is C10)")
-    return [step, geo, space, mask_fn, reset]
+    return [step, order, geo, space, mask_fn, reset]
